@@ -387,13 +387,17 @@ def pick_op(rng, cur):
             merged = a.concat(b, axis=axis)
             snap_a, snap_b = snapshot(a), snapshot(b)
             use_dict = bool(rng.integers(0, 2))
+            # a type that stays wholly in part a may be absent from the signature or listed with an explicit count of 0 (the
+            # signature of a `b` that holds an empty block of that type): both say "nothing of this type goes to b"
+            zeros = {t: 0 for t in m.keys() if t not in sigb and rng.integers(0, 2)}
 
             def closer(z):
                 # both documented forms of the signature argument: dict, or a Signature tuple (in a shuffled order)
-                sig_arg = sigb if use_dict else geom.Signature(tuple((t, n) for t, n in sorted(sigb.items(), reverse=True)))
+                full = {**zeros, **sigb}
+                sig_arg = full if use_dict else geom.Signature(tuple((t, n) for t, n in sorted(full.items(), reverse=True)))
                 a2, b2 = z.concat_inverse(sig_arg, axis=axis)
                 for nm, got, sn in (("a", a2, snap_a), ("b", b2, snap_b)):
-                    msg = same_state(got, sn, f"concat_inverse part {nm} (axis {axis}, signature {sigb})")
+                    msg = same_state(got, sn, f"concat_inverse part {nm} (axis {axis}, signature {full})")
                     if msg:
                         raise RoundTripError(msg)
                 return z
